@@ -88,6 +88,17 @@ def components(snap):
     return comps
 
 
+def malformed(snap, w):
+    """A gate list the reference simulator cannot run on w qubits (index beyond the width, repeated qubit in one gate)."""
+    for s in snap:
+        qs = list(s[1]) + list(s[2] or ())
+        if any(q >= w or q < 0 for q in qs):
+            return f"qubit index beyond width {w} in {s[:3]}"
+        if len(set(qs)) != len(qs):
+            return f"repeated qubit in {s[:3]}"
+    return None
+
+
 def action_dist(snap_a, snap_b, n, seed):
     """Phase-insensitive distance between the actions of two gate lists on n qubits, normalised to operator scale
     (Frobenius / sqrt(#columns)). Full unitary up to 5 qubits, 4 seeded random states above."""
@@ -317,7 +328,12 @@ class CircuitWorld(World):
 
     def _rebuild(self, snap, limit):
         from tangelo.linq import Circuit
-        gates = [C.j_to_gate(C.snap_to_j(s)) for s in snap]
+        gates = []
+        for s in snap:
+            try:
+                gates.append(C.j_to_gate(C.snap_to_j(s)))
+            except Exception:
+                pass            # a corrupted gate (e.g. repeated qubit) cannot be rebuilt: dropped by the repair
         lim = limit if isinstance(limit, int) and limit else None
         if lim is not None and any(q >= lim for q in C.used_qubits(snap)):
             lim = None
@@ -650,7 +666,9 @@ class CircuitWorld(World):
         elif k == "inverse" and numeric:
             r = results[0][0]
             w = max(r.width, e.meta["width"])
-            if w <= 5 and w > 0:
+            if w <= 5 and w > 0 and malformed(C.snap_circuit(r), w):
+                V.append(Violation("C09", "malformed-gate-list", "inverse", {"problem": malformed(C.snap_circuit(r), w)}))
+            elif w <= 5 and w > 0:
                 Ur = C.snap_unitary(C.snap_circuit(r), w)
                 Ue = C.snap_unitary(e.snap, w).conj().T
                 d = R.phase_dist(Ur, Ue) / math.sqrt(2 ** w)
@@ -696,6 +714,10 @@ class CircuitWorld(World):
         if not (C.is_unitary_numeric(got) and C.is_unitary_numeric(exp)):
             return
         self.ctx.check("C09.action")
+        bad = malformed(got, w)
+        if bad:
+            V.append(Violation("C09", "malformed-gate-list", site, {"problem": bad, "got": got[:8], "op": op}))
+            return
         d = action_dist(got, exp, w, seed)
         if d > tol:
             V.append(Violation("C09", "action-differs", site, {"dist": d, "expected": exp[:8], "got": got[:8], "op": op}))
@@ -714,6 +736,10 @@ class CircuitWorld(World):
             n_drop = 0
         bound = n_drop * thr / 2 + 1e-7
         self.ctx.check("C09.action")
+        bad = malformed(after, w)
+        if bad:
+            V.append(Violation("C09", "malformed-gate-list", kk, {"problem": bad, "after": after[:8], "op": op}))
+            return
         d = action_dist(after, before, w, seed)
         if any(s[0] in ("CRX", "CRY", "CRZ") and abs(abs(s[3]) % (4 * PI) - 2 * PI) < 1e-2 for s in before):
             self.ctx.probe("C09.controlled_rotation_near_2pi")
@@ -754,7 +780,7 @@ class CircuitWorld(World):
                     sub = tuple(s for s in e.snap if (set(s[1]) | set(s[2] or ())) & comp)
                     mp = {q: i for i, q in enumerate(sorted(comp))}
                     exp = relabel(sub, mp)
-                    if len(exp) == len(p) and (k == 0 or action_dist(p, exp, max(k, 1), seed) <= 1e-7):
+                    if len(exp) == len(p) and (k == 0 or (not malformed(p, max(k, 1)) and action_dist(p, exp, max(k, 1), seed) <= 1e-7)):
                         found = comp
                         break
                 if found is None:
